@@ -279,12 +279,14 @@ func UpdatePathAggregator4ByteAs(msg *bgp.BGPUpdate) error {
 		return nil
 	}
 
-	if aggAttr == nil && agg4Attr != nil {
-		return bgp.NewMessageError(bgp.BGP_ERROR_UPDATE_MESSAGE_ERROR, bgp.BGP_ERROR_SUB_MALFORMED_ATTRIBUTE_LIST, nil, "AS4 AGGREGATOR attribute exists, but AGGREGATOR doesn't")
-	}
-
 	if agg4Attr != nil {
 		msg.PathAttributes = append(msg.PathAttributes[:agg4AttrPos], msg.PathAttributes[agg4AttrPos+1:]...)
+		if aggAttr == nil {
+			// AS4_AGGREGATOR on its own (its AGGREGATOR may have been
+			// malformed and discarded, RFC 7606 7.7) is no error of the
+			// UPDATE: there is nothing it could stand in for, it is dropped
+			return nil
+		}
 		// RFC 6793 4.2.3: AS4_AGGREGATOR is only meaningful next to an
 		// AGGREGATOR that carries AS_TRANS; otherwise it is ignored
 		if aggAttr.Value.AS == bgp.AS_TRANS {
